@@ -1424,14 +1424,28 @@ def implicit_checkpoint(model, info, art):
     snap = {}
     marker = Msg("null", None, "marker")
 
+    resets = []
+    box = {}
+
     def hook(msg):
+        if msg is box.get("m"):
+            # from here on count the run bundlers' reset_checkpoint_state calls: "every open run's checkpoint state is reset" - the sequence
+            # counter snapshot a later rewind restores - is part of the clause, an emptied message cache alone is not the checkpoint
+            for key, rb in RE._run_bundlers.items():
+                def counted(orig=rb.reset_checkpoint_state, key=key):
+                    resets.append(key)
+                    return orig()
+                rb.reset_checkpoint_state = counted
         if msg is marker:
             c = RE._msg_cache
             snap["cache"] = None if c is None else [m.command for m in c]
+            snap["open"] = list(RE._run_bundlers)
+            snap["resets"] = list(resets)          # (the engine's clean-up after the plan closes the runs, which resets them once more)
     RE.msg_hook = hook
 
     def plan():
         yield Msg("open_run")
+        yield Msg("open_run", run="b")
         if handler == "_unmonitor":
             yield Msg("monitor", _SIG)
         token = None
@@ -1450,6 +1464,7 @@ def implicit_checkpoint(model, info, art):
              "_subscribe": Msg("subscribe", None, _callback, "all"), "_unsubscribe": Msg("unsubscribe", token=token),
              "_close_run": Msg("close_run"), "_checkpoint": Msg("checkpoint"), "_clear_checkpoint": Msg("clear_checkpoint"),
              "_rewindable": Msg("rewindable", None, info.get("requested"))}[handler]
+        box["m"] = m
         yield m
         yield marker
     try:
@@ -1466,7 +1481,15 @@ def implicit_checkpoint(model, info, art):
         ok = (got == []) if handler == "_checkpoint" else (got is None)
     else:
         ok = got == []
-    return ("contradicted" if ok else "confirmed"), f"{handler} with cache {kind}: the cache when the next message arrives is {got}"
+    # an (implicit) checkpoint reaches every run that is still open: each bundler's reset_checkpoint_state was called
+    must_reset = kind != "none" and handler != "_clear_checkpoint" and \
+        (handler != "_rewindable" or (info.get("requested") is not None and info.get("requested") != info.get("before")))
+    resets = snap.get("resets", [])
+    not_reset = [k for k in snap.get("open", []) if k not in resets] if must_reset else []
+    if not_reset:
+        ok = False
+    return ("contradicted" if ok else "confirmed"), (f"{handler} with cache {kind}: the cache when the next message arrives is {got}; open runs whose "
+                                                     f"checkpoint state was reset by it: {sorted(set(map(str, resets)))}, not reset: {not_reset}")
 
 
 def rewind_plan(model, info, art):
